@@ -678,6 +678,12 @@ def _event(rep, prog):
     moms = [n for n in F.nodes(kind='call') if n.stmt[1] == 'particle::set_momentum']
     loops = any(n.id in F.reach(s) for n in adds for s in n.succ)
     ok2 = len(adds) == 2 and not loops and len({ir.fmt(n.stmt[2][0]) for n in adds}) == 1
+    if loops and len(adds) == 1:
+        # the two electrons are appended by a loop (e.g. a range-for over the two rotated momenta): the polynomial identities below
+        # are written for the two straight-line blocks; nothing is concluded
+        rep.cannot_decide('EVENT', where(fn, adds[0].line), 'add_particle is called in a loop: the two-electron kinematics are not '
+                          'followed through the iteration')
+        return
     rep.add('EVENT', 'two-particles', where(fn, adds[0].line if adds else None), 'add_particle is called exactly twice on the event, outside any loop', ok2)
     # the event holds exactly those two particles: it is emptied before the first append
     clearing = set()
